@@ -178,6 +178,13 @@ class _Conv:
                 raise Unsupported(f"self.join over {seq}")
             if name == "str" and args == (NODE,):
                 return ("data", "@str")
+            if name in ("repr", "str") and len(args) == 1 and \
+                    args[0][0] == "field":
+                return ("constrepr", args[0][1], name)
+            if name == "repr" and len(args) == 1 and args[0][0] == "call" and \
+                    args[0][1] == "float" and len(args[0][2]) == 1 and \
+                    args[0][2][0][0] == "field":
+                return ("floatrepr", args[0][2][0][1])
             raise Unsupported(f"call {name}")
         if t == "strformat":
             return self.fmt_split(v[1], v[2], "{}")
@@ -222,9 +229,15 @@ class _Conv:
 
 
 def _cond(v, pol):
+    if v[0] == "boolop" and v[1] == "And":
+        parts = tuple(c for c in (_cond(x, True) for x in v[2]) if c)
+        return ("all", parts, pol)
     if v[0] == "call" and v[1] == "isinstance" and v[2][0][0] == "field" \
             and v[2][1] == ("global", "tuple"):
         return ("field_is_tuple", v[2][0][1], pol)
+    if v[0] == "call" and v[1] == "isinstance" and v[2][0][0] == "field" \
+            and v[2][1] == ("global", "int"):
+        return ("field_is_int", v[2][0][1], pol)
     if v[0] == "compare" and v[1] == ("Eq",) and v[2] == ("len", NODE) \
             and v[3][0][0] == "const":
         return ("len_eq", v[3][0][1], pol)
@@ -513,7 +526,27 @@ def _extract_handler(model, mapper, n: NodeClass, mem, precs):
             if isinstance(val, tuple) and val and val[0] == "lit" and val[2] and all(
                     x[0] in ("global", "attr") for x in val[2]):
                 conv.env_tuples[nm] = _class_names(model, mapper, val)
-        variants.append(Variant(tuple(conds), conv.conv(ps.retval)))
+        rv = ps.retval
+        if isinstance(rv, tuple) and rv[0] == "call" and \
+                rv[1] == "super." + mem.node.name and rv[2][:1] == (NODE,):
+            nxt = None
+            past = False
+            for k in model.mro(mapper):
+                if k is mem.owner:
+                    past = True
+                    continue
+                if past and hasattr(k, "members") and \
+                        mem.node.name in k.members and \
+                        k.members[mem.node.name].kind == "func":
+                    nxt = k.members[mem.node.name]
+                    break
+            if nxt is None:
+                raise Unsupported(f"super().{mem.node.name}: no inherited handler")
+            for sub in _extract_handler(model, mapper, n, nxt, precs):
+                variants.append(Variant(tuple(conds) + tuple(sub.conds),
+                                        sub.template))
+            continue
+        variants.append(Variant(tuple(conds), conv.conv(rv)))
     if not variants:
         raise Unsupported("no returning path")
     return variants
@@ -695,6 +728,11 @@ class ModelPrinter:
         if c[0] == "field_is_tuple":
             val = self.get(tree, c[1])
             return (val[0] == "Tuple") == c[2]
+        if c[0] == "all":
+            return all(self.cond(tree, x, prec) for x in c[1]) == c[2]
+        if c[0] == "field_is_int":
+            val = self.get(tree, c[1])
+            return (val[0] == "Const" and isinstance(val[1], int)) == c[2]
         if c[0] == "field_is_var":
             return (self.get(tree, c[1])[0] == "Var") == c[2]
         if c[0] == "field_is_const":
@@ -735,6 +773,16 @@ class ModelPrinter:
         if k == "hole":
             p_ = prec if t[2] == "ENCLOSING" else t[2]
             return self.child(self.get(tree, t[1]), p_, t[3])
+        if k == "constrepr":
+            val = self.get(tree, t[1])
+            if val[0] != "Const":
+                raise Unsupported("repr()/str() of a non-constant child")
+            return repr(val[1]) if t[2] == "repr" else str(val[1])
+        if k == "floatrepr":
+            val = self.get(tree, t[1])
+            if val[0] != "Const":
+                raise Unsupported("repr(float(...)) of a non-constant child")
+            return repr(float(val[1]))
         if k == "hole_mul":
             p_ = prec if t[3] == "ENCLOSING" else t[3]
             return self.print(mul(self.get(tree, t[1]), self.get(tree, t[2])), p_)
